@@ -148,14 +148,14 @@ func VerifH_C04_library_walk_edge_arguments() {
 	verifReach("function-called")
 	nkinds := 8
 	nargs := verifChoose("nargs", 3)
-	if verifTier() == 0 && nargs == 2 {
-		return // quick tier: tuples of 0 and 1 argument
+	if nargs == 2 {
+		return // tuples of 0 and 1 argument (pairs multiply the concretisation of size arguments beyond what finishes in an hour)
 	}
 	args := make([]rt.Value, nargs)
 	for i := range args {
 		if nargs == 2 {
-			// pairs: nil, pool integer, one-byte string, empty table for each position
-			args[i] = vhEdgeValue("a", [4]int{0, 1, 3, 5}[verifChoose("kind2", 4)])
+			// pairs: pool integer or one-byte string in each position
+			args[i] = vhEdgeValue("a", [2]int{1, 3}[verifChoose("kind2", 2)])
 		} else {
 			args[i] = vhEdgeValue("a", verifChoose("kind", nkinds))
 		}
